@@ -37,13 +37,14 @@ Proof. exact C02_wire_decodes_thm. Qed.
 Print Assumptions C02_wire_decodes.
 
 (* request ids of accepted calls: strictly increasing and non-zero while fewer than 2^32 events have happened
-   (the 32-bit counter wraps after that); never zero at all *)
+   (the 32-bit counter wraps after that); never zero, from any starting value of the counter (a call returns 0 only
+   when it is rejected: C02_rejected_iff) *)
 Theorem C02_rr_ids : forall silent evs s tr, run_trace silent init evs = (s, tr) -> len evs < 4294967296 ->
   StronglySorted Z.lt (map p_rr (accepted tr)) /\ Forall (fun p => 0 < p_rr p < 4294967296) (accepted tr).
 Proof. exact C02_rr_ids_thm. Qed.
 Print Assumptions C02_rr_ids.
 
-Theorem C02_rr_nonzero : forall silent evs s tr, run_trace silent init evs = (s, tr) ->
+Theorem C02_rr_nonzero : forall silent s0 evs s tr, run_trace silent s0 evs = (s, tr) ->
   Forall (fun p => p_rr p <> 0) (accepted tr).
 Proof. exact C02_rr_nonzero_thm. Qed.
 Print Assumptions C02_rr_nonzero.
